@@ -134,6 +134,19 @@ func buildByHistory(rng *rand.Rand, pats []string, detours []string, method stri
 			txn.Abort()
 		}
 	}
+	// every detour at once in a transaction that is given up, then in a managed one that fails: nothing of either may
+	// reach the published tree
+	txn := rt.Txn(true)
+	for _, dp := range detours {
+		txn.Handle(method, dp, h(dp))
+	}
+	txn.Abort()
+	_ = rt.Updates(func(txn *fox.Txn) error {
+		for i := len(detours) - 1; i >= 0; i-- {
+			txn.Handle(method, detours[i], h(detours[i]))
+		}
+		return errSentinel
+	})
 	return rt, nil
 }
 
